@@ -3,6 +3,7 @@ import GoflowModel.Basic.DateText
 import GoflowModel.Engine.Determinism
 import GoflowModel.Engine.Concurrent
 import GoflowModel.Engine.Redaction
+import GoflowModel.Engine.Migrate
 import GoflowModel.Gen.Consts
 import GoflowModel.Driver.Util
 /-
@@ -14,6 +15,7 @@ import GoflowModel.Driver.Util
   timeparse <hex>                           →  ok h mi s nanos | err
   cqlredact <hex property> <value empty 01>  →  accept | reject-redacted                  (VisitCondition under the urns policy)
   ctxview <redact01> <hex name> <id> <urns> <sendable schemes>  →  default=… urn=… urns=… by=…   (Contact.Context)
+  limitname <max> <hex name>                →  ok <hex>                                    (Migrate13_6)
   objget <hex names,…> <hex key>            →  ok <index of the property found> | none   (XObject.Get)
   objprops <hex names,…>                    →  ok <hex names sorted>                      (XObject.Properties)
 -/
@@ -122,6 +124,8 @@ def handle : List String → Option String
       | .nothing => "nothing"
     let schemes := (us.map (·.scheme)).eraseDups
     some s!"default={dflt} urn={showO cx.urn} urns={",".intercalate (cx.urns.map showV)} by={",".intercalate (schemes.map fun sc => showO (cx.byScheme sc))}"
+  | ["limitname", mx, h] => do
+    some ("ok " ++ encL (Migrate.limitName (← mx.toNat?) (← decL h)))
   | ["cacheseq", keys] => do
     -- each request is a thread that runs alone to completion (lock, look/load, store+unlock); key 9 does not exist
     let ks ← (keys.splitOn ",").mapM (·.toNat?)
